@@ -36,6 +36,15 @@ pub fn ledger_reset(panic_at: Option<u64>) {
     });
 }
 
+/// Arms the one-shot destructor panic for the very next destructor invocation.
+pub fn ledger_arm_next() {
+    LEDGER.with(|l| {
+        let mut l = l.borrow_mut();
+        l.panic_at = Some(l.drops + 1);
+        l.panicked = false;
+    });
+}
+
 pub fn ledger_errors() -> Vec<String> {
     LEDGER.with(|l| l.borrow().errors.clone())
 }
